@@ -398,8 +398,9 @@ func (C11Iso) Events(env world.Env, mm mc.Model) []string {
 		evs = append(evs, fmt.Sprintf("CreateFeedVariant:N:%d", i), fmt.Sprintf("UpdateFeedVariant:N:%d", i))
 	}
 	evs = append(evs, "DeleteNotifVariant:N:0", "DeleteNotifVariant:N:1", "DeleteNotifVariant:N:2", "DeleteFileVariant:N")
-	evs = append(evs, "PostSameFile:N")   // N posts the same content as O (in O's posting block: same content and start, other owner)
-	nj := world.MineAcctName("NJ", "jkl") // the account whose address ends in "jkl" acts in its own name
+	evs = append(evs, "UpdateFeedOSame:N") // N re-submits exactly the value O's feed already holds
+	evs = append(evs, "PostSameFile:N")    // N posts the same content as O (in O's posting block: same content and start, other owner)
+	nj := world.MineAcctName("NJ", "jkl")  // the account whose address ends in "jkl" acts in its own name
 	evs = append(evs, "BlockSenders:"+nj)
 	if mm.(c11Model).Blocks < 1 {
 		evs = append(evs, "NextBlock")
@@ -491,6 +492,8 @@ func (C11Iso) Apply(env world.Env, mm mc.Model, ev string) mc.Step {
 		msg = mp
 	case "DeleteFile":
 		msg = storagetypes.NewMsgDeleteFile(who, c01F1.merkle, m.Start)
+	case "UpdateFeedOSame":
+		msg = oracletypes.NewMsgUpdateFeed(who, "feedO", `{"price":"1"}`)
 	case "PostSameFile":
 		pm := storagetypes.NewMsgPostFile(who, append([]byte{}, c01F1.merkle...), 12, 0, 0, 1, "{}")
 		pm.Expires = env.Ctx().BlockHeight() + 20_000 // paid up front: N needs no plan
